@@ -25,9 +25,6 @@ pub fn exclusion(t: &Ty) -> Option<&'static str> {
     if t.contains(&|t| matches!(t, Ty::Future(_) | Ty::Stream(_))) {
         return Some("future/stream: async transport, outside the sync configurations C10 quantifies over");
     }
-    if t.contains(&|t| matches!(t, Ty::Own(_) | Ty::Borrow(_))) {
-        return Some("own/borrow inside value types: handles are exercised by the C11 resource world (top-level own / borrow)");
-    }
     None
 }
 
@@ -40,19 +37,38 @@ pub struct FuncPlan {
 }
 
 impl FuncPlan {
+    pub fn new(name: String, ty: Ty) -> FuncPlan {
+        let values = refabi::universe::values(&ty);
+        FuncPlan { name, ty, values }
+    }
+    /// `borrow` may not appear in a result: such functions are `func(p0: T)` only.
+    pub fn has_result(&self) -> bool {
+        !self.ty.contains_borrow()
+    }
+    pub fn result(&self) -> Option<&Ty> {
+        self.has_result().then_some(&self.ty)
+    }
     /// the answer the host gives to case `c`
     pub fn answer(&self, c: usize) -> &Val {
         &self.values[(c + 1) % self.values.len()]
     }
 }
 
+/// Handles inside value types refer to a resource `res0` that the world only *imports* (interface
+/// `r`), so that the export side and the import side of interface `i` use the same handle types and
+/// the echo can pass handles through unchanged.
 pub fn chunk_wit(funcs: &[FuncPlan]) -> String {
     let mut d = WitDoc::new();
     d.export_too = true;
     for f in funcs {
-        d.func(&FuncDecl { name: f.name.clone(), params: vec![f.ty.clone()], result: Some(f.ty.clone()), async_: false });
+        d.func(&FuncDecl { name: f.name.clone(), params: vec![f.ty.clone()], result: f.result().cloned(), async_: false });
     }
-    d.text()
+    let text = d.text();
+    if text.contains("  resource res0;\n") {
+        text.replace("  resource res0;\n", "  use r.{res0};\n").replace("interface i {", "interface r {\n  resource res0;\n}\n\ninterface i {")
+    } else {
+        text
+    }
 }
 
 pub fn parse(text: &str) -> Result<(Resolve, WorldId), String> {
